@@ -20,6 +20,7 @@ import (
 	"path/filepath"
 	"sort"
 	"strconv"
+	"strings"
 	"sync"
 	"sync/atomic"
 	"time"
@@ -32,10 +33,12 @@ import (
 	"github.com/openGemini/openGemini/lib/raftconn"
 	"github.com/openGemini/openGemini/lib/raftlog"
 	"github.com/openGemini/openGemini/lib/util/lifted/hashicorp/serf/serf"
+	"github.com/openGemini/openGemini/lib/util/lifted/influx/influxql"
 	meta2 "github.com/openGemini/openGemini/lib/util/lifted/influx/meta"
 	"github.com/openGemini/openGemini/lib/util/lifted/vm/protoparser/influx"
 	"go.etcd.io/etcd/raft/v3"
 	"go.etcd.io/etcd/raft/v3/raftpb"
+	"verif/harness/engx"
 )
 
 const dbName = "db0"
@@ -53,6 +56,12 @@ type standin struct {
 	files map[int]kv // shard -> data files (durable: <dir>/data.json)
 	snp   *raftlog.SnapShotter
 	immSnp map[int]*raftlog.SnapShotter // the SnapShotter each running flush saw at its start
+	snpOf  map[int]bool                 // shards that know the SnapShotter
+	// real mode: a REAL ts-store shard per shard number (engine.VerifShard); the maps above stay empty
+	realMode bool
+	real     map[int]*engine.VerifShard
+	cache    map[int]kv // what realMap returned last, per shard; dropped whenever the shard is written, flushed, opened
+	dead     bool // the life this store belonged to was killed: nothing reaches the directories any more
 	// controls
 	gate      chan struct{} // non-nil: applies of the commit loop wait until it is closed
 	replayGate chan struct{}
@@ -60,10 +69,15 @@ type standin struct {
 	applied   int64 // number of successful + failed applies seen (commit loop)
 	replayed  int64
 	waiting   int32 // commit-loop applies currently blocked at the gate
+	busy      int32 // applies (commit loop or replay) inside the store right now
 }
 
-func newStandin(dir string) *standin {
-	s := &standin{dir: dir, mem: map[int]kv{}, imm: map[int]kv{}, files: map[int]kv{}, immSnp: map[int]*raftlog.SnapShotter{}}
+func newStandin(dir string, real bool) *standin {
+	s := &standin{dir: dir, mem: map[int]kv{}, imm: map[int]kv{}, files: map[int]kv{}, immSnp: map[int]*raftlog.SnapShotter{},
+		snpOf: map[int]bool{}, realMode: real, real: map[int]*engine.VerifShard{}}
+	if real {
+		return s
+	}
 	if b, err := os.ReadFile(filepath.Join(dir, "data.json")); err == nil {
 		var f map[string]map[string]int
 		if json.Unmarshal(b, &f) == nil {
@@ -78,6 +92,190 @@ func newStandin(dir string) *standin {
 		}
 	}
 	return s
+}
+
+// shard opens (recovers) the real shard sh of this life on first use.
+func (s *standin) shard(sh int) (*engine.VerifShard, error) {
+	s.mu.Lock()
+	defer s.mu.Unlock()
+	if s.dead {
+		return nil, errors.New("store of a dead life")
+	}
+	if v := s.real[sh]; v != nil {
+		return v, nil
+	}
+	v, err := engine.VerifOpenShard(filepath.Join(s.dir, fmt.Sprintf("shard%d", sh)), 0)
+	if err != nil {
+		return nil, err
+	}
+	v.DisableBackground()
+	v.StopIndexBackground() // the index touches the disk only when the engine asks it to (crash images are copies of the directory)
+	s.real[sh] = v
+	return v, nil
+}
+
+// openExisting opens every shard directory the previous life left (a restarted store loads its
+// shards - WAL replay included - before the raft node starts).
+func (s *standin) openExisting() error {
+	fis, _ := os.ReadDir(s.dir)
+	for _, fi := range fis {
+		var sh int
+		if n, _ := fmt.Sscanf(fi.Name(), "shard%d", &sh); n == 1 && fi.IsDir() {
+			if _, err := s.shard(sh); err != nil {
+				return err
+			}
+		}
+	}
+	return nil
+}
+
+// realMap is what a read of the whole shard returns: key -> value.
+func (s *standin) realMap(sh int) (kv, error) {
+	s.mu.Lock()
+	v := s.real[sh]
+	if c, ok := s.cache[sh]; ok && v != nil {
+		s.mu.Unlock()
+		return c, nil
+	}
+	s.mu.Unlock()
+	out := kv{}
+	if v == nil {
+		return out, nil
+	}
+	v.FlushIndex() // new series become searchable (the index buffers them for up to a second)
+	rows, err := v.Dump("m", []engine.VerifField{{Name: "fi", Type: influxql.Integer}}, engx.TimeOf(0), engx.TimeOf(1000), true)
+	if err != nil {
+		return nil, err
+	}
+	for _, r := range rows {
+		k := engx.SeriesIndex(r.Series)
+		if len(r.Vals) == 1 {
+			if x, ok := r.Vals[0].(int64); ok {
+				out[k] = int(x)
+			}
+		}
+	}
+	s.mu.Lock()
+	if s.cache == nil {
+		s.cache = map[int]kv{}
+	}
+	s.cache[sh] = out
+	s.mu.Unlock()
+	return out, nil
+}
+
+func (s *standin) dirty(sh int) {
+	s.mu.Lock()
+	delete(s.cache, sh)
+	s.mu.Unlock()
+}
+
+// mergedText: digest of everything the node answers (all shards, merged view)
+func (s *standin) mergedText() string {
+	l := map[int]kv{}
+	if s.realMode {
+		s.mu.Lock()
+		var shs []int
+		for sh := range s.real {
+			shs = append(shs, sh)
+		}
+		s.mu.Unlock()
+		for _, sh := range shs {
+			m, err := s.realMap(sh)
+			if err != nil {
+				return "err:" + err.Error()
+			}
+			l[sh] = m
+		}
+		return layerText(l)
+	}
+	s.mu.Lock()
+	defer s.mu.Unlock()
+	for _, layer := range []map[int]kv{s.files, s.imm, s.mem} {
+		for sh, m := range layer {
+			if l[sh] == nil {
+				l[sh] = kv{}
+			}
+			for k, v := range m {
+				l[sh][k] = v
+			}
+		}
+	}
+	return layerText(l)
+}
+
+// flushReal is a whole flush of the real shard (tsstoreImpl.writeSnapshot through ForceFlush).
+func (s *standin) flushReal(sh int) error {
+	v, err := s.shard(sh)
+	if err != nil {
+		return err
+	}
+	defer s.dirty(sh)
+	if perr := safe(func() { v.Flush() }); perr != "" {
+		return errors.New(perr)
+	}
+	return nil
+}
+
+// crashImage: what the shard directories hold at this instant is what the next life finds. The
+// image is taken first; the dead life's shard objects are closed afterwards (their close may still
+// write - into directories that are then thrown away).
+func (s *standin) crashImage() error {
+	s.mu.Lock()
+	var shs []int
+	for sh := range s.real {
+		shs = append(shs, sh)
+	}
+	s.mu.Unlock()
+	for _, sh := range shs {
+		src := filepath.Join(s.dir, fmt.Sprintf("shard%d", sh))
+		if err := copyDir(src, src+".img"); err != nil {
+			return err
+		}
+	}
+	s.abandon()
+	for _, sh := range shs {
+		src := filepath.Join(s.dir, fmt.Sprintf("shard%d", sh))
+		if err := os.RemoveAll(src); err != nil {
+			return err
+		}
+		if err := os.Rename(src+".img", src); err != nil {
+			return err
+		}
+	}
+	return nil
+}
+
+// abandon: the process died; the shard objects are closed without reaching the raft node
+func (s *standin) abandon() {
+	s.mu.Lock()
+	vs := s.real
+	s.real = map[int]*engine.VerifShard{}
+	s.dead = true
+	s.mu.Unlock()
+	for _, v := range vs {
+		v := v
+		_ = safe(func() { _ = v.Abandon() })
+	}
+}
+
+func (s *standin) snpList() []int {
+	s.mu.Lock()
+	defer s.mu.Unlock()
+	var out []int
+	if s.realMode {
+		for sh, v := range s.real {
+			if v.HasSnapShotter() {
+				out = append(out, sh)
+			}
+		}
+	} else {
+		for sh := range s.snpOf {
+			out = append(out, sh)
+		}
+	}
+	sort.Ints(out)
+	return out
 }
 
 func (s *standin) persist() error {
@@ -105,6 +303,14 @@ func (s *standin) Write(db, rp, mst string, ptId uint32, shardID uint64, writeDa
 }
 
 func (s *standin) WriteDataFunc(db, rp string, ptId uint32, shardID uint64, rows []influx.Row, binaryRows []byte, snp *raftlog.SnapShotter) error {
+	s.mu.Lock()
+	dead := s.dead
+	s.mu.Unlock()
+	if dead {
+		return errors.New("store of a dead life")
+	}
+	atomic.AddInt32(&s.busy, 1)
+	defer atomic.AddInt32(&s.busy, -1)
 	fromReplay := snp == nil
 	if fromReplay {
 		s.mu.Lock()
@@ -130,10 +336,25 @@ func (s *standin) WriteDataFunc(db, rp string, ptId uint32, shardID uint64, rows
 		}
 	}
 	sh := int(shardID) / 100
+	if s.realMode {
+		v, err := s.shard(sh)
+		if err != nil {
+			return err
+		}
+		var werr error
+		defer s.dirty(sh)
+		if perr := safe(func() { werr = v.WriteReplicated(rows, snp) }); perr != "" {
+			return errors.New(perr)
+		}
+		return werr
+	}
 	s.mu.Lock()
 	defer s.mu.Unlock()
 	if snp != nil && s.snp == nil { // shard.SetSnapShotter keeps the first one
 		s.snp = snp
+	}
+	if snp != nil {
+		s.snpOf[sh] = true
 	}
 	if s.mem[sh] == nil {
 		s.mem[sh] = kv{}
@@ -152,7 +373,10 @@ func (s *standin) WriteDataFunc(db, rp string, ptId uint32, shardID uint64, rows
 // the raft snapshot signal sent; flushEnd is commitSnapshot (files durable) and the table reset.
 func (s *standin) flushBegin(sh int) {
 	s.mu.Lock()
-	snp := s.snp // read once, as writeSnapshot does
+	var snp *raftlog.SnapShotter
+	if s.snpOf[sh] {
+		snp = s.snp // read once, as writeSnapshot does
+	}
 	s.immSnp[sh] = snp
 	s.mu.Unlock()
 	if snp != nil {
@@ -205,6 +429,14 @@ func (s *standin) flushEnd(sh int) error {
 }
 
 func (s *standin) read(sh, k int) (int, bool) {
+	if s.realMode {
+		m, err := s.realMap(sh)
+		if err != nil {
+			return 0, false
+		}
+		v, ok := m[k]
+		return v, ok
+	}
 	s.mu.Lock()
 	defer s.mu.Unlock()
 	for _, layer := range []map[int]kv{s.mem, s.imm, s.files} {
@@ -246,17 +478,27 @@ func fnvHex(parts []string) string {
 
 func rowKV(r *influx.Row) (k, v int, ok bool) {
 	for i := range r.Tags {
-		if r.Tags[i].Key == "k" {
-			k, _ = strconv.Atoi(r.Tags[i].Value)
+		if r.Tags[i].Key == "host" {
+			k, _ = strconv.Atoi(strings.TrimPrefix(r.Tags[i].Value, "h"))
 			ok = true
 		}
 	}
 	for i := range r.Fields {
-		if r.Fields[i].Key == "v" {
+		if r.Fields[i].Key == "fi" {
 			v = int(r.Fields[i].NumValue)
 		}
 	}
 	return
+}
+
+// rowOf is one point of the small universe the shard harnesses share (engx): measurement m, series
+// h<k>, timestamp k, integer field fi = v, optionally a string field of `pad` bytes.
+func rowOf(k, v, pad int) influx.Row {
+	f := map[string]string{"fi": strconv.Itoa(v)}
+	if pad > 0 {
+		f["fs"] = strings.Repeat("x", pad)
+	}
+	return engx.ToInflux([]engx.Row{{Mst: "m", Series: k, T: k, Fields: f}})[0]
 }
 
 // tailOf is the request body WriteToRaft receives: master shard id, stream shard ids, rows.
@@ -264,13 +506,7 @@ func tailOf(shard, k, v, pad int) []byte {
 	var b []byte
 	b = encoding.MarshalUint64(b, uint64(shard))
 	b = encoding.MarshalUint32(b, 0)
-	row := influx.Row{Name: "m_0000", Timestamp: int64(k) * 1e9,
-		Tags:   influx.PointTags{{Key: "k", Value: strconv.Itoa(k)}},
-		Fields: influx.Fields{{Key: "v", Type: influx.Field_Type_Int, NumValue: float64(v)}}}
-	if pad > 0 {
-		row.Fields = append(row.Fields, influx.Field{Key: "w", Type: influx.Field_Type_String, StrValue: string(make([]byte, pad))})
-	}
-	b, err := influx.FastMarshalMultiRows(b, []influx.Row{row})
+	b, err := influx.FastMarshalMultiRows(b, []influx.Row{rowOf(k, v, pad)})
 	if err != nil {
 		panic(err)
 	}
@@ -336,6 +572,7 @@ type cluster struct {
 	alive []bool // what the meta client reports for the data node
 	meta  *fakeMeta
 	sync  time.Duration
+	real  bool // a real ts-store shard behind every node (else the stand-in, which can be paused inside a flush)
 }
 
 type transport struct {
@@ -359,8 +596,8 @@ func (t *transport) SendRaftMessages(nodeID uint64, database string, pt uint32, 
 	return nil
 }
 
-func newCluster(root string, n int) *cluster {
-	cl := &cluster{n: n, root: root, held: make([]bool, n), heldIn: make([]bool, n), heldOut: make([]bool, n), alive: make([]bool, n), sync: time.Second}
+func newCluster(root string, n int, real bool) *cluster {
+	cl := &cluster{n: n, root: root, real: real, held: make([]bool, n), heldIn: make([]bool, n), heldOut: make([]bool, n), alive: make([]bool, n), sync: time.Second}
 	cl.meta = &fakeMeta{cl: cl}
 	for i := 0; i < n; i++ {
 		cl.nodes = append(cl.nodes, &nd{cl: cl, id: i})
@@ -382,7 +619,12 @@ func (cl *cluster) startMode(i int, dir string, late bool) (err error) {
 		if err = os.MkdirAll(dir, 0o755); err != nil {
 			return
 		}
-		x.st = newStandin(dir)
+		x.st = newStandin(dir, cl.real)
+		if cl.real {
+			if err = x.st.openExisting(); err != nil {
+				return
+			}
+		}
 		if late {
 			x.st.replayGate = make(chan struct{})
 		}
@@ -415,19 +657,20 @@ func (cl *cluster) startMode(i int, dir string, late bool) (err error) {
 		cl.mu.Lock()
 		x.up = true
 		cl.mu.Unlock()
-		x.loop = make(chan struct{})
-		go func(done chan struct{}, st *standin) {
-			defer close(done)
-			engine.VerifReadCommitFromRaft(rn, cl.meta, st)
-		}(x.loop, x.st)
+		// the production helper starts the apply loop; it decides what the loop does before the
+		// replay has been applied (engine.startRaftNode / the PT load path: start, replay, open)
+		gate := make(chan struct{})
+		engine.VerifStartCommitLoop(rn, cl.meta, x.st, gate)
 		x.replayDone = make(chan struct{})
 		if late {
 			go func(done chan struct{}, st *standin) {
 				defer close(done)
 				engine.VerifReadReplay(replayC, cl.meta, st, dbName, uint32(i))
+				close(gate)
 			}(x.replayDone, x.st)
 		} else {
 			engine.VerifReadReplay(replayC, cl.meta, x.st, dbName, uint32(i))
+			close(gate)
 			close(x.replayDone)
 		}
 	}); perr != "" {
@@ -454,6 +697,11 @@ func (cl *cluster) kill(i int) (string, error) {
 	waitFor(20*time.Second, func() bool { return rn.VerifStatus().ID == 0 })
 	_ = safe(func() { x.store.Close() })
 	x.rn, x.eng, x.store = nil, nil, nil
+	if cl.real {
+		if err := x.st.crashImage(); err != nil {
+			return "", err
+		}
+	}
 	return x.dir, nil
 }
 
@@ -530,7 +778,7 @@ func safe(f func()) (perr string) {
 // obs is what the harness can see of a node between two steps.
 type obs struct {
 	first, last, commit, applied, snap, sc uint64
-	hasSnp                                 bool
+	snps                                   []int // shards that know the SnapShotter
 }
 
 func (x *nd) observe() obs {
@@ -543,8 +791,6 @@ func (x *nd) observe() obs {
 	o.snap = sp.Metadata.Index
 	o.applied = x.rn.VerifAppliedIndex()
 	o.sc = atomic.LoadUint64(&x.rn.SnapShotter.CommittedIndex)
-	x.st.mu.Lock()
-	o.hasSnp = x.st.snp != nil
-	x.st.mu.Unlock()
+	o.snps = x.st.snpList()
 	return o
 }
